@@ -8,6 +8,8 @@ reset-free recovery, memo eviction.
 """
 from __future__ import annotations
 
+import os
+
 import numpy as np
 
 from .. import em, games, gm, seams
@@ -28,7 +30,7 @@ REAL_VS_STUB = {"real": ["bounds (all registered computers)", "norms", "exploita
 ASSUMPTIONS = ["exact mode: interval monotonicity compared exactly; float mode: tolerance 1e-9*max(1,max|v|)",
                "exploitability is a cancelling sum: tolerance 1e-9*scale*2^n in both modes; norms 1e-12 relative",
                "hidden game's class is re-checked by the harness's independent predicates"]
-PROBES = ["second_episode_on_same_object", "full_knowledge_reached", "torn_step_recovered", "probe_between_reveals", "sam_computer", "sa_computer",
+PROBES = ["large_n_path", "second_episode_on_same_object", "full_knowledge_reached", "torn_step_recovered", "probe_between_reveals", "sam_computer", "sa_computer",
           "env_path", "object_path", "registry_game", "heavy_sam_computer"]
 TIERS = {
     "quick": {"runs": 30000, "wall": 40, "batch": 16, "shrink_s": 40},
@@ -93,12 +95,18 @@ def run(sim: Sim) -> None:
     n = 3 + sim.choose(3, "n")
     cls = sim.pick(["SA", "SAM"], "class")
     heavy = n == 3 and sim.flip(1, 6, "heavy")
+    large = sim.choose(700 if sim.tier == "quick" else 40, "large-n") == 1 or bool(os.environ.get("VERIF_FORCE_LARGE"))
+    if large:  # rare: a long reveal path at n = 7..8 (hundreds of reveals, dozens of known super-coalitions)
+        n = 7 + sim.choose(2, "large-n-value")
+        sim.probe("large_n_path")
     comp_name = sim.pick(games.computers_for(cls, n, heavy_ok=heavy), "computer")
+    if large:
+        comp_name = "superadditive_cached" if cls == "SA" or sim.flip(1, 2, "large-sa") else "sam_apx_1"
     sim.probe("sam_computer" if comp_name.startswith("sam") else "sa_computer")
     if comp_name in ("sam_apx_100", "sam_apx_1000"):
         sim.probe("heavy_sam_computer")
-    if sim.flip(1, 3, "registry"):
-        key = sim.pick(SA_KEYS if cls == "SA" else SAM_KEYS, "key")
+    if sim.flip(1, 3, "registry") or (large and sim.flip(2, 3, "large-registry")):
+        key = sim.pick(SA_KEYS if cls == "SA" else [k for k in SAM_KEYS if not (large and k == "oxs")], "key")
         src = em.RegistrySource(key, n, sim.choose(2 ** 32, "seed"))
         with sim.guard("C07.generator_raised"):
             src()
@@ -155,17 +163,46 @@ def run(sim: Sim) -> None:
                  full=len(order) == len(explorable))
 
 
+_OTHER: dict = {}
+
+
+def _other_env_activity(sim: Sim, n: int, comp_name: str, GAPS, values, upcoming: int) -> None:
+    """A second live environment of the same process (same n, same initial knowledge, another hidden game)
+    is stepped between the reveals of the judged one - two clients of one process, interleaved."""
+    key = id(sim)
+    try:
+        if key not in _OTHER:
+            _OTHER.clear()
+            cls = "SAM" if comp_name.startswith("sam") else "SA"
+            v2, _ = games.draw_game(sim, n, cls)
+            _OTHER[key] = em.make_env(n, comp_name, em.ListSource([v2], n), GAPS[sim.pick(sorted(GAPS), "other-env-gap")], None)
+        env2 = _OTHER[key]
+        valid = [int(a) for a in np.nonzero(env2.action_masks())[0]]
+        if not valid or sim.flip(1, 8, "other-env-reset"):
+            env2.reset()
+        elif upcoming in valid and sim.flip(1, 2, "other-env-lockstep"):
+            env2.step(upcoming)  # the other client makes the same move just before the judged one
+        else:
+            env2.step(sim.pick(valid, "other-env-action"))
+        sim.fault("other_live_environment_stepped")
+    except Exception as e:  # not judged
+        sim.event("other-env-raised", type(e).__name__)
+
+
 def _episode(sim: Sim, n, comp_name, path, env, h, game, values, exact, scale, GAPS, order, explorable, ctx, full) -> None:
     old = games.arrays(game)
     g_old = gaps_of(sim, game, GAPS, scale, ctx)
     revealed: list[int] = []
+    reported: list[float] = [float(-env.reward)] if path == "env" else []
     for a in order:
         cid = explorable[a]
         mask_before = sum(1 << explorable[x] for x in revealed)
         # disturbances between reveals
-        d = sim.pick_weighted([("none", 6), ("probe", 2), ("torn", 1), ("evict", 1), ("other_use", 1)], "disturbance")
+        d = sim.pick_weighted([("none", 6), ("probe", 2), ("torn", 1), ("evict", 1), ("other_use", 1), ("other_env", 1)], "disturbance")
         if d == "other_use":
             prelude.warm_process(sim, label="midrun")
+        if d == "other_env" and n <= 5:
+            _other_env_activity(sim, n, comp_name, GAPS, values, a)
         with sim.guard("C07.operation_raised"):
             if d == "evict":
                 seams.clear_memos()
@@ -203,6 +240,7 @@ def _episode(sim: Sim, n, comp_name, path, env, h, game, values, exact, scale, G
                 game.compute_bounds()
                 if path == "env":
                     env.steps_taken = len(revealed)
+                    reported[:] = [float(-env.reward)]
                 if fired:
                     sim.probe("torn_step_recovered")
                 rec = games.arrays(game)
@@ -213,7 +251,17 @@ def _episode(sim: Sim, n, comp_name, path, env, h, game, values, exact, scale, G
         sim.op("reveal", cid)
         with sim.guard("C07.operation_raised"):
             if path == "env":
-                env.step(a)
+                ret = env.step(a)
+                # the gap the environment itself reports (what every consumer sees) obeys the same law
+                rep = -float(ret[1])
+                gt = 1e-9 * scale * 2 ** n
+                sim.checked()
+                if reported and rep > reported[-1] + gt:
+                    sim.fail("C07.gap_reported_by_environment_increased_after_reveal",
+                             {**ctx, "revealed": cid, "before": reported[-1], "after": rep})
+                if rep < -gt:
+                    sim.fail("C07.gap_reported_by_environment_negative", {**ctx, "revealed": cid, "value": rep})
+                reported.append(rep)
             else:
                 h.reveal(cid)
                 h.compute()
